@@ -21,7 +21,53 @@ func init() {
 
 // C20 (partial): the clock- and history-dependent half of the statement.
 
+// genC20Steady: a transfer at a perfectly steady rate, shown by the library's own moving-average
+// decorators with the default age: whatever the weighting, the average of equal samples is that sample.
+func genC20Steady(r *Rand) *h.Scenario {
+	sc := &h.Scenario{Prop: "C20", Mode: "steady"}
+	c := &sc.Cont
+	c.Refresh = h.RefManual
+	c.QueueLen = -1
+	c.Width = 400
+	n := int64([]int{1, 2, 4, 5, 8, 1000, 1 << 20}[r.Intn(7)])
+	per := int64([]int64{1e3, 5e5, 1e6, 25e6, 1e9}[r.Intn(5)]) // ns per item, an integer
+	k := r.Range(3, 14)
+	total := n*int64(k) + n*int64(r.Range(1, 40))
+	bs := h.BarSpec{QueueAfter: -1, Filler: h.FillProbe, Total: total}
+	for j, m := 0, r.Range(1, 3); j < m; j++ {
+		d := h.DecSpec{Kind: []int{h.DecLibEwmaSpeed, h.DecLibEwmaETA}[r.Intn(2)], Style: r.Intn(4), Mark: true}
+		if d.Kind == h.DecLibEwmaSpeed {
+			d.Fmt = []string{"", "%.1f", "% .2f", "%d"}[r.Intn(4)]
+			if d.Style%3 == 0 {
+				d.Fmt = []string{"", "%.1f", "%f"}[r.Intn(3)]
+			}
+		}
+		if r.Bool(0.3) {
+			d.Wrap = []int{[]int{h.WrapMeta, h.WrapOnCompleteMeta}[r.Intn(2)]}
+		}
+		bs.App = append(bs.App, d)
+	}
+	sc.Bars = []h.BarSpec{bs}
+	sc.Initial = []int{0}
+	var ops []h.Op
+	for j := 0; j < k; j++ {
+		ops = append(ops, h.Op{K: []int{h.OpEwmaIncr, h.OpEwmaIncrBy}[r.Intn(2)], Bar: 0, N: n, D: n * per})
+		if r.Bool(0.7) {
+			ops = append(ops, h.Op{K: h.OpRefresh})
+		}
+	}
+	ops = append(ops, h.Op{K: h.OpRefresh}, h.Op{K: h.OpAbort, Bar: 0}, h.Op{K: h.OpRefresh}, h.Op{K: h.OpRefresh})
+	sc.Clients = [][]h.Op{ops}
+	sc.Steady = []int64{n, per}
+	p := DefaultProfile("C20")
+	sc.Sched = genSched(r, &p)
+	return sc
+}
+
 func genC20(r *Rand, tier string, i int) *h.Scenario {
+	if r.Bool(0.08) {
+		return genC20Steady(r)
+	}
 	sc := &h.Scenario{Prop: "C20"}
 	c := &sc.Cont
 	c.Refresh = r.Weighted(6, 3, 0)
@@ -603,6 +649,36 @@ func judgeC20(hi *Hist) []*Violation {
 					note("c20_median_eta_checked")
 					if !okText {
 						add("median-eta", "frame %d: bar %d shows moving-average ETA %q; (total-current) x median of the last three samples prints %v (style %d)", fi, g.Bar, txt, tried, spec.Style%4)
+					}
+				case h.DecLibEwmaSpeed, h.DecLibEwmaETA:
+					// steady scenarios only: every sample was (n items, n*per ns)
+					if len(hi.Sc.Steady) != 2 || done || spy.Current <= 0 {
+						break
+					}
+					n, per := hi.Sc.Steady[0], hi.Sc.Steady[1]
+					_ = n
+					if spec.Kind == h.DecLibEwmaSpeed {
+						val, gran, _, ok := readSize(txt)
+						if !ok {
+							add("speed-unreadable", "frame %d: moving-average speed of bar %d prints %q", fi, g.Bar, txt)
+							break
+						}
+						note("c20_steady_speed_checked")
+						want := 1e9 / float64(per)
+						if math.Abs(val-want) > gran+1.0+1e-6*want {
+							add("steady-speed", "frame %d: bar %d shows moving-average speed %q (= %g/s) after %d equal samples of %d ns per item (= %g/s)", fi, g.Bar, txt, val, spy.Current/n, per, want)
+						}
+					} else {
+						got, gran, ok := readTimeText(spec.Style, txt)
+						if !ok {
+							add("eta-unreadable", "frame %d: moving-average ETA of bar %d prints %q", fi, g.Bar, txt)
+							break
+						}
+						note("c20_steady_eta_checked")
+						want := time.Duration((spy.Total - spy.Current) * per)
+						if want < 59*time.Hour && (got > want+gran || got < want-gran-time.Second) {
+							add("steady-eta", "frame %d: bar %d shows moving-average ETA %q (= %v) after equal samples of %d ns per item with %d items left (= %v)", fi, g.Bar, txt, got, per, spy.Total-spy.Current, want)
+						}
 					}
 				case h.DecPercentage:
 					checkPercentage(fi, g.Bar, txt, spy, add)
